@@ -176,7 +176,8 @@ func (w *world) request(policy int) result {
 	return r
 }
 
-func (w *world) judge(t *rapid.T, r result, policy int, allowed []map[int]bool, trace string) {
+// cut: for requests racing with an update, the endpoints that the update removes from the server list (nil otherwise)
+func (w *world) judge(t *rapid.T, r result, policy int, allowed []map[int]bool, cut map[int]bool, trace string) {
 	if r.status == -1 || r.upstream == -2 {
 		t.Fatalf("request %s: no response / seen by several upstreams\ntrace: %s", r.id, trace)
 	}
@@ -215,6 +216,17 @@ func (w *world) judge(t *rapid.T, r result, policy int, allowed []map[int]bool, 
 		t.Fatalf("request for policy %d answered 503 although eligible endpoints exist (%v)\ntrace: %s", policy, allowed, trace)
 	}
 	_ = anyNonEmpty
+	if r.status == 502 {
+		// a racing request may have picked an eligible endpoint that the update removes before the proxied request
+		// reached it: the endpoint's context is cancelled on purpose (C15), the client sees a gateway error
+		for _, a := range allowed {
+			for e := range a {
+				if cut[e] {
+					return
+				}
+			}
+		}
+	}
 	t.Fatalf("request for policy %d: status %d and not forwarded (eligible %v)\ntrace: %s", policy, r.status, allowed, trace)
 }
 
@@ -302,7 +314,7 @@ func TestPropEndpointSelection(t *testing.T) {
 				for k := 0; k < n; k++ {
 					r := w.request(policy)
 					trace += fmt.Sprintf("req(p%d)->%d@%d;", policy, r.status, r.upstream)
-					w.judge(t, r, policy, []map[int]bool{el}, tail(trace))
+					w.judge(t, r, policy, []map[int]bool{el}, nil, tail(trace))
 					if r.upstream >= 0 {
 						sub.Class("forwarded")
 					} else {
@@ -348,9 +360,16 @@ func TestPropEndpointSelection(t *testing.T) {
 					}
 				}
 				allowed = append(allowed, map[int]bool{})
+				cut := map[int]bool{}
+				for _, e := range old.servers {
+					cut[e] = true
+				}
+				for _, e := range w.cur.servers {
+					delete(cut, e)
+				}
 				for _, r := range results {
 					trace += fmt.Sprintf("racing-req(p%d)->%d@%d;", policy, r.status, r.upstream)
-					w.judge(t, r, policy, allowed, tail(trace))
+					w.judge(t, r, policy, allowed, cut, tail(trace))
 				}
 				changed = true
 				nt = true
